@@ -500,7 +500,7 @@ class Verifier:
 # ---------------------------------------------------------------------------
 
 
-def solve(pc, goal, timeout_ms, want_model=True):
+def solve(pc, goal, timeout_ms, want_model=True, fallback=True):
     """-> (status, model|None, seconds, backend)   status: proved | refuted | unknown"""
     t0 = time.time()
     s = z3.Solver()
@@ -514,6 +514,8 @@ def solve(pc, goal, timeout_ms, want_model=True):
         return "proved", None, dt, "z3"
     if r == z3.sat:
         return "refuted", s.model(), dt, "z3"
+    if not fallback:
+        return "unknown", None, dt, "z3"
     # z3 unknown: try cvc5 through SMT-LIB text
     st = cvc5_check(s, timeout_ms)
     dt = time.time() - t0
@@ -547,27 +549,20 @@ def cvc5_check(solver, timeout_ms):
 
 
 def discharge(res, timeout_ms=20000, unit_budget_s=None):
-    """solve every obligation of a FnResult.  Once a clause is refuted on one path the
-    remaining paths of the same clause are skipped (the verdict cannot improve); after two
-    ``unknown`` answers for a clause, or when the unit's time budget is used up, the rest is
-    reported unknown without calling the solver."""
+    """solve every obligation of a FnResult in two passes: a quick pass (2 s per query, z3 only) over
+    everything, then the open ones again with the full timeout and the cvc5 fallback, as long as the unit's
+    time budget lasts.  Once a clause is refuted on one path the remaining paths of the same clause are
+    skipped (the verdict cannot improve); after two ``unknown`` answers of the full pass for a clause the
+    rest of that clause is reported unknown without calling the solver."""
     t0 = time.time()
     refuted_names = set()
     unknown_ct = {}
     if unit_budget_s is None:
         unit_budget_s = 12 * timeout_ms / 1000.0
-    for ob in res.obligations:
-        ob.witness = None
-        if ob.name in refuted_names:
-            ob.status, ob.time, ob.backend = "skipped", 0.0, "skipped"
-            continue
-        if unknown_ct.get(ob.name, 0) >= 2 or (time.time() - t0) > unit_budget_s:
-            ob.status, ob.time, ob.backend = "unknown", 0.0, "budget"
-            continue
-        st, model, dt, be = solve(ob.pc, ob.goal, timeout_ms)
-        ob.status, ob.time, ob.backend = st, dt, be
-        if st == "unknown":
-            unknown_ct[ob.name] = unknown_ct.get(ob.name, 0) + 1
+
+    def record(ob, st, model, dt, be):
+        ob.status, ob.backend = st, be
+        ob.time = getattr(ob, "time", 0.0) + dt
         if st == "refuted":
             refuted_names.add(ob.name)
             if model is not None:
@@ -582,4 +577,28 @@ def discharge(res, timeout_ms=20000, unit_budget_s=None):
                             ob.witness["__ghost__"] = decode(m, ob.ghost0, model)
                 except Exception as e:  # decoding must never turn into a verdict
                     ob.witness = {"__decode_error__": repr(e)}
+
+    quick_ms = min(2000, timeout_ms)
+    pending = []
+    for ob in res.obligations:
+        ob.witness = None
+        ob.time = 0.0
+        if ob.name in refuted_names:
+            ob.status, ob.backend = "skipped", "skipped"
+            continue
+        st, model, dt, be = solve(ob.pc, ob.goal, quick_ms, fallback=False)
+        record(ob, st, model, dt, be)
+        if st == "unknown":
+            pending.append(ob)
+    for ob in pending:
+        if ob.name in refuted_names:
+            ob.status, ob.backend = "skipped", "skipped"
+            continue
+        if unknown_ct.get(ob.name, 0) >= 2 or (time.time() - t0) > unit_budget_s:
+            ob.status, ob.backend = "unknown", "budget"
+            continue
+        st, model, dt, be = solve(ob.pc, ob.goal, timeout_ms)
+        record(ob, st, model, dt, be)
+        if st == "unknown":
+            unknown_ct[ob.name] = unknown_ct.get(ob.name, 0) + 1
     return res
